@@ -42,8 +42,8 @@ func ruleC01(c *Check, p *Prog) {
 	c.Floor("R-EQUIV", 7)
 	runNumSpecs(c, p, c01Specs)
 	checkDecisionTable(c, p, "R-PART", "selectM", pkgRoot, "selectM", refSelectM, decisionPts, "block length 10 / 100 / 1000 / 10000 / 1000000 below 10^3 / from 10^3 / 10^4 / 10^6 / 10^8 bits")
-	checkWrapper(c, p, "R-FORWARD", "FrequencyWithinBlockTest", wrapperSpec{"FrequencyWithinBlockTest", "FrequencyWithinBlockProto", []string{"P0", "selectM"}, 2})
 	checkPreconds(c, p, "C01")
+	checkEntryPoints(c, p, "C01")
 }
 
 var c02Specs = []numSpec{
@@ -60,6 +60,7 @@ func ruleC02(c *Check, p *Prog) {
 	checkDecisionTable(c, p, "R-PART", "selectParameters", pkgRoot, "selectParameters", refSelectParameters, decisionPts, "regime 0 / 1 / 2 (block length 8 / 128 / 10000) for n < 6272 / < 750000 / otherwise")
 	checkLongestRunTables(c, p)
 	checkPreconds(c, p, "C02")
+	checkEntryPoints(c, p, "C02")
 }
 
 var c03Specs = []numSpec{
@@ -73,6 +74,7 @@ func ruleC03(c *Check, p *Prog) {
 	c.Floor("R-EQUIV", 3)
 	runNumSpecs(c, p, c03Specs)
 	checkPreconds(c, p, "C03")
+	checkEntryPoints(c, p, "C03")
 }
 
 var c04Specs = []numSpec{
@@ -90,6 +92,7 @@ func ruleC04(c *Check, p *Prog) {
 	runNumSpecs(c, p, c04Specs)
 	checkConstTables(c, p, "C04")
 	checkPreconds(c, p, "C04")
+	checkEntryPoints(c, p, "C04")
 }
 
 var c05Specs = []numSpec{
@@ -102,6 +105,7 @@ func ruleC05(c *Check, p *Prog) {
 	c.Floor("R-EQUIV", 2)
 	runNumSpecs(c, p, c05Specs)
 	checkPreconds(c, p, "C05")
+	checkEntryPoints(c, p, "C05")
 }
 
 var fdom = map[string]Domain{"param:0": {FLo: 0.5, FHi: 50}, "param:1": {FLo: 0.01, FHi: 80}}
@@ -138,4 +142,30 @@ func ruleC19(c *Check, p *Prog) {
 
 func numNote(c *Check) string {
 	return fmt.Sprintf(" Method: each function's if-converted loop-nest summary (loops, induction variables in closed form, accumulator transfer functions, memory events, guards, results) is compared in lock-step with the summary of a reference formulation written from the standard (checker/ref); terms are compared by random interpretation at %d points per comparison with erfc/erf/exp/lgamma/igamc as injective surrogates, comparison atoms by boundary and strictness. NOT decided: floating-point accumulation error (the literal 'within 1e-8')", pointsFor(c))
+}
+
+// entry points of a property's tests: every wrapper / runner must forward to the core functions decided above
+var propCores = map[string][]string{
+	"C01": {"MonoBitFrequencyTestBytes", "MonoBitFrequencyTest", "FrequencyWithinBlockProto", "PokerTestBytes", "PokerProto", "OverlappingTemplateMatchingProto", "ApproximateEntropyProto"},
+	"C02": {"RunsTest", "RunsDistributionTest", "LongestRunOfOnesInABlockProto"},
+	"C03": {"BinaryDerivativeProto", "AutocorrelationProto", "CumulativeTest"},
+	"C04": {"MatrixRankProto", "LinearComplexityProto", "MaurerUniversalTest"},
+	"C05": {"DiscreteFourierTransformTest"},
+}
+
+func checkEntryPoints(c *Check, p *Prog, prop string) {
+	cores := map[string]bool{}
+	for _, n := range propCores[prop] {
+		cores[n] = true
+	}
+	for _, ws := range wrapperSpecs {
+		if cores[ws.Core] {
+			checkWrapper(c, p, "R-FORWARD", ws.Name, ws)
+		}
+	}
+	for _, rs := range runnerSpecs {
+		if cores[rs.Core] {
+			checkRunner(c, p, rs, "R-RUNNER", "")
+		}
+	}
 }
